@@ -10,11 +10,18 @@ package main
 import (
 	"context"
 	"fmt"
+	"net"
 	"sort"
+	"strings"
+	"sync"
+	"time"
 
+	"google.golang.org/grpc"
+	"google.golang.org/protobuf/proto"
+	"google.golang.org/protobuf/types/known/durationpb"
+	"google.golang.org/protobuf/types/known/structpb"
 	metav1 "k8s.io/apimachinery/pkg/apis/meta/v1"
 	"k8s.io/apimachinery/pkg/runtime"
-	"google.golang.org/protobuf/proto"
 
 	fnv1 "github.com/crossplane/crossplane/apis/apiextensions/fn/proto/v1"
 	fnv1beta1 "github.com/crossplane/crossplane/apis/apiextensions/fn/proto/v1beta1"
@@ -30,10 +37,14 @@ type c04Rev struct {
 }
 
 type c04ConnOp struct {
-	Op   string   `json:"op"`   // "set" | "run" | "gc"
+	// "set" | "run" (getClientConn only) | "gc" | "call" (the REAL PackagedFunctionRunner.RunFunction
+	// over gRPC to an in-process server listening on the loopback interface)
+	Op   string   `json:"op"`
 	Fns  []string `json:"fns"`  // set: installed Function objects
 	Revs []c04Rev `json:"revs"` // set: FunctionRevisions (complete replacement)
 	Name string   `json:"name"` // run
+	// run / call / gc: the List this operation issues (FunctionRevisions / Functions) answers an error
+	ListFail bool `json:"listFail,omitempty"`
 }
 
 type c04ConnScn struct {
@@ -45,12 +56,119 @@ type c04ConnStep struct {
 	Target string      `json:"target"` // run: target handed out ("" on error)
 	Err    bool        `json:"err"`
 	Closed int         `json:"closed"` // gc: number of connections closed
+	// call: the endpoint (symbolic) of the server that received the request ("" = none) and
+	// whether it arrived through the v1beta1 service
+	Got  string `json:"got"`
+	Beta bool   `json:"beta"`
 	Conns  [][2]string `json:"conns"`  // cached connections after the step, sorted
 }
 
 type c04ConnObs struct {
 	Steps []c04ConnStep `json:"steps"`
 }
+
+// ---- in-process function servers on the loopback interface ----
+// "live0" and "live1" serve the v1 FunctionRunnerService, "live2" ONLY the v1beta1 one (so a
+// call to it exercises BetaFallBackFunctionRunnerServiceClient's fallback and re-encoding on a
+// real transport). Started once per harness process.
+
+type c04Delivery struct {
+	beta bool
+	req  *fnv1.RunFunctionRequest
+	rsp  *fnv1.RunFunctionResponse
+}
+
+type c04Srv struct {
+	id   string
+	addr string
+	mu   sync.Mutex
+	got  map[string]*c04Delivery // by request meta.tag
+}
+
+func (v *c04Srv) answer(req *fnv1.RunFunctionRequest, beta bool) *fnv1.RunFunctionResponse {
+	ctx, _ := structpb.NewStruct(map[string]any{"server": v.id, "nested": map[string]any{"n": 1.5, "l": []any{"a", true, nil}}})
+	sev := fnv1.Target_TARGET_COMPOSITE_AND_CLAIM
+	msg := "m"
+	rsp := &fnv1.RunFunctionResponse{
+		Meta:    &fnv1.ResponseMeta{Tag: req.GetMeta().GetTag(), Ttl: durationpb.New(90 * time.Second)},
+		Desired: &fnv1.State{Composite: req.GetObserved().GetComposite(), Resources: map[string]*fnv1.Resource{"r": {Resource: ctx, Ready: fnv1.Ready_READY_TRUE, ConnectionDetails: map[string][]byte{"k": []byte("v")}}}},
+		Context: ctx,
+		Results: []*fnv1.Result{{Severity: fnv1.Severity_SEVERITY_NORMAL, Message: "from " + v.id, Target: &sev}},
+		Conditions: []*fnv1.Condition{{Type: "T", Status: fnv1.Status_STATUS_CONDITION_FALSE, Reason: "R", Message: &msg, Target: &sev}},
+		Requirements: &fnv1.Requirements{ExtraResources: map[string]*fnv1.ResourceSelector{
+			"a": {ApiVersion: "v1", Kind: "K", Match: &fnv1.ResourceSelector_MatchName{MatchName: "n"}},
+			"b": {ApiVersion: "v1", Kind: "K", Match: &fnv1.ResourceSelector_MatchLabels{MatchLabels: &fnv1.MatchLabels{Labels: map[string]string{"x": "y"}}}}}},
+	}
+	v.mu.Lock()
+	v.got[req.GetMeta().GetTag()] = &c04Delivery{beta: beta, req: proto.Clone(req).(*fnv1.RunFunctionRequest), rsp: proto.Clone(rsp).(*fnv1.RunFunctionResponse)}
+	v.mu.Unlock()
+	return rsp
+}
+
+type c04V1Handler struct {
+	fnv1.UnimplementedFunctionRunnerServiceServer
+	s *c04Srv
+}
+
+func (h *c04V1Handler) RunFunction(_ context.Context, req *fnv1.RunFunctionRequest) (*fnv1.RunFunctionResponse, error) {
+	return h.s.answer(req, false), nil
+}
+
+type c04BetaHandler struct {
+	fnv1beta1.UnimplementedFunctionRunnerServiceServer
+	s *c04Srv
+}
+
+func (h *c04BetaHandler) RunFunction(_ context.Context, req *fnv1beta1.RunFunctionRequest) (*fnv1beta1.RunFunctionResponse, error) {
+	// the server's own (independent) view of the request: v1beta1 wire bytes read as v1
+	b, err := proto.Marshal(req)
+	if err != nil {
+		return nil, err
+	}
+	v := &fnv1.RunFunctionRequest{}
+	if err := proto.Unmarshal(b, v); err != nil {
+		return nil, err
+	}
+	rsp := h.s.answer(v, true)
+	b, err = proto.Marshal(rsp)
+	if err != nil {
+		return nil, err
+	}
+	out := &fnv1beta1.RunFunctionResponse{}
+	return out, proto.Unmarshal(b, out)
+}
+
+var (
+	c04SrvOnce sync.Once
+	c04Srvs    map[string]*c04Srv // by symbolic endpoint
+	c04SrvErr  error
+)
+
+// c04Servers starts the three servers (once) and returns them by symbolic endpoint.
+func c04Servers() (map[string]*c04Srv, error) {
+	c04SrvOnce.Do(func() {
+		c04Srvs = map[string]*c04Srv{}
+		for _, id := range []string{"live0", "live1", "live2"} {
+			l, err := net.Listen("tcp", "127.0.0.1:0")
+			if err != nil {
+				c04SrvErr = err
+				return
+			}
+			v := &c04Srv{id: id, addr: l.Addr().String(), got: map[string]*c04Delivery{}}
+			g := grpc.NewServer()
+			if id == "live2" {
+				fnv1beta1.RegisterFunctionRunnerServiceServer(g, &c04BetaHandler{s: v})
+			} else {
+				fnv1.RegisterFunctionRunnerServiceServer(g, &c04V1Handler{s: v})
+			}
+			go func() { _ = g.Serve(l) }()
+			c04Srvs[id] = v
+		}
+	})
+	return c04Srvs, c04SrvErr
+}
+
+var c04CallSeq int
 
 func c04ConnRun(s c04ConnScn) (c04ConnObs, []Mon) {
 	sch := runtime.NewScheme()
@@ -67,10 +185,46 @@ func c04ConnRun(s c04ConnScn) (c04ConnObs, []Mon) {
 		sort.Slice(out, func(i, j int) bool { return out[i][0] < out[j][0] })
 		return out
 	}
+	// symbolic live endpoints <-> loopback addresses
+	srvs, srvErr := c04Servers()
+	toAddr := func(ep string) string {
+		if v, ok := srvs[ep]; ok {
+			return v.addr
+		}
+		return ep
+	}
+	toSym := func(addr string) string {
+		for id, v := range srvs {
+			if v.addr == addr {
+				return id
+			}
+		}
+		return addr
+	}
+	if srvErr != nil {
+		mons = append(mons, Mon{Sig: "C04:harness-cannot-listen", Why: srvErr.Error()})
+	}
+	connsRaw := conns
+	conns = func() [][2]string {
+		out := connsRaw()
+		for i := range out {
+			out[i][1] = toSym(out[i][1])
+		}
+		return out
+	}
 	var revs []c04Rev
 	fns := map[string]bool{}
 	for _, op := range s.Ops {
 		step := c04ConnStep{}
+		st.Plan = nil
+		if op.ListFail {
+			st.Plan = func(c CallInfo) Outcome {
+				if c.Verb == "list" {
+					return Fail
+				}
+				return OK
+			}
+		}
 		switch op.Op {
 		case "set":
 			for _, u := range st.All() {
@@ -88,7 +242,7 @@ func c04ConnRun(s c04ConnScn) (c04ConnObs, []Mon) {
 				if rv.Active {
 					fr.Spec.DesiredState = pkgv1.PackageRevisionActive
 				}
-				fr.Status.Endpoint = rv.Endpoint
+				fr.Status.Endpoint = toAddr(rv.Endpoint)
 				st.Seed(fr)
 			}
 		case "run":
@@ -97,6 +251,7 @@ func c04ConnRun(s c04ConnScn) (c04ConnObs, []Mon) {
 				mons = append(mons, Mon{Sig: "C04:panic", Why: p})
 			}
 			step.Err = err != nil
+			step.Target = toSym(step.Target)
 			// direct monitor: the connection handed out targets the endpoint of an ACTIVE revision of that function
 			if err == nil {
 				ok := false
@@ -109,6 +264,74 @@ func c04ConnRun(s c04ConnScn) (c04ConnObs, []Mon) {
 					mons = append(mons, Mon{Sig: "C04:sent-to-non-active-endpoint", Why: fmt.Sprintf("function %s was handed a connection to %q which is not the endpoint of one of its active revisions", op.Name, step.Target)})
 				}
 			}
+		case "call":
+			// the REAL RunFunction: getClientConn, then the v1 RPC with the v1beta1 fallback
+			c04CallSeq++
+			tag := fmt.Sprintf("call-%d", c04CallSeq)
+			in, _ := structpb.NewStruct(map[string]any{"apiVersion": "in.example.org/v1", "kind": "Input", "spec": map[string]any{"v": tag, "n": 2.5, "l": []any{"x", false, nil, map[string]any{"k": "v"}}}})
+			xrs, _ := structpb.NewStruct(map[string]any{"apiVersion": "example.org/v1", "kind": "XThing", "metadata": map[string]any{"name": "xr"}})
+			req := &fnv1.RunFunctionRequest{
+				Meta:     &fnv1.RequestMeta{Tag: tag},
+				Observed: &fnv1.State{Composite: &fnv1.Resource{Resource: xrs, ConnectionDetails: map[string][]byte{"user": []byte("u")}}, Resources: map[string]*fnv1.Resource{"a": {Resource: xrs, Ready: fnv1.Ready_READY_FALSE}}},
+				Desired:  &fnv1.State{Resources: map[string]*fnv1.Resource{"b": {Resource: in, Ready: fnv1.Ready_READY_TRUE}}},
+				Input:    in,
+				Context:  in,
+				ExtraResources: map[string]*fnv1.Resources{"e": {Items: []*fnv1.Resource{{Resource: xrs}}}, "nil": nil},
+				Credentials: map[string]*fnv1.Credentials{"c": {Source: &fnv1.Credentials_CredentialData{CredentialData: &fnv1.CredentialData{Data: map[string][]byte{"k": []byte("v")}}}}},
+			}
+			sent := proto.Clone(req).(*fnv1.RunFunctionRequest)
+			// calls are sequential: whatever a server records from here on belongs to this call
+			for _, v := range srvs {
+				v.mu.Lock()
+				v.got = map[string]*c04Delivery{}
+				v.mu.Unlock()
+			}
+			ctx, cancel := context.WithTimeout(context.Background(), 2*time.Second)
+			var rsp *fnv1.RunFunctionResponse
+			var err error
+			if p := Guard(func() { rsp, err = r.RunFunction(ctx, op.Name, req) }); p != "" {
+				mons = append(mons, Mon{Sig: "C04:panic", Why: p})
+			}
+			cancel()
+			step.Err = err != nil
+			if t, ok := xfn.VerifConnTargets(r)[op.Name]; ok && err == nil {
+				step.Target = toSym(t)
+			}
+			var d *c04Delivery
+			for id, v := range srvs {
+				v.mu.Lock()
+				for t, x := range v.got {
+					if d != nil {
+						mons = append(mons, Mon{Sig: "C04:delivered-twice", Why: "one RunFunction call was received twice"})
+					}
+					d, step.Got, step.Beta = x, id, x.beta
+					delete(v.got, t)
+				}
+				v.mu.Unlock()
+			}
+			// direct monitors: the request reached a server iff the call succeeded; that server is the
+			// endpoint of an ACTIVE revision of the named function; request and response crossed
+			// the wire (and the v1beta1 re-encoding) unchanged
+			if (d != nil) != (err == nil) {
+				mons = append(mons, Mon{Sig: "C04:call-outcome-inconsistent", Why: fmt.Sprintf("delivered=%v err=%v", d != nil, err)})
+			}
+			if d != nil {
+				ok := false
+				for _, rv := range revs {
+					if rv.Fn == op.Name && rv.Active && rv.Endpoint == step.Got {
+						ok = true
+					}
+				}
+				if !ok {
+					mons = append(mons, Mon{Sig: "C04:sent-to-non-active-endpoint", Why: fmt.Sprintf("the request for function %s was received by %s which is not the endpoint of one of its active revisions", op.Name, step.Got)})
+				}
+				if !proto.Equal(d.req, sent) {
+					mons = append(mons, Mon{Sig: "C04:beta-reencoding-lossy", Why: fmt.Sprintf("the request received by %s (beta=%v) differs from the request sent", step.Got, d.beta)})
+				}
+				if err == nil && !proto.Equal(d.rsp, rsp) {
+					mons = append(mons, Mon{Sig: "C04:beta-reencoding-lossy", Why: fmt.Sprintf("the response returned by RunFunction differs from the one %s (beta=%v) sent", step.Got, d.beta)})
+				}
+			}
 		case "gc":
 			var err error
 			before := xfn.VerifConnTargets(r)
@@ -116,6 +339,13 @@ func c04ConnRun(s c04ConnScn) (c04ConnObs, []Mon) {
 			step.Err = err != nil
 			after := xfn.VerifConnTargets(r)
 			for k := range before {
+				if err != nil {
+					// the List failed: nothing may have been closed
+					if _, still := after[k]; !still {
+						mons = append(mons, Mon{Sig: "C04:closed-conn-although-list-failed", Why: "garbage collection closed the connection of " + k + " although it could not list the installed functions"})
+					}
+					continue
+				}
 				_, still := after[k]
 				if fns[k] && !still {
 					mons = append(mons, Mon{Sig: "C04:closed-installed-function-conn", Why: "garbage collection closed the connection of installed function " + k})
@@ -134,7 +364,20 @@ func c04ConnRun(s c04ConnScn) (c04ConnObs, []Mon) {
 func c04ConnGen(r *Rng) c04ConnScn {
 	s := c04ConnScn{Conn: true}
 	names := []string{"fa", "fb", "fc"}
-	eps := []string{"dns:///fa:9443", "dns:///fb:9443", "dns:///alt:9443", ""}
+	eps := []string{"dns:///fa:9443", "dns:///fb:9443", "dns:///alt:9443", "", "live0", "live1", "live2", "live0", "live2"}
+	var cur []c04Rev
+	// would a call for fn return without waiting for a dead endpoint? (generator only: it decides
+	// whether the op is the real RunFunction or just getClientConn)
+	callable := func(fn string) bool {
+		rs := append([]c04Rev{}, cur...)
+		sort.Slice(rs, func(i, j int) bool { return rs[i].Name < rs[j].Name })
+		for _, rv := range rs {
+			if rv.Fn == fn && rv.Active {
+				return rv.Endpoint == "" || strings.HasPrefix(rv.Endpoint, "live")
+			}
+		}
+		return true
+	}
 	set := func() c04ConnOp {
 		op := c04ConnOp{Op: "set", Fns: []string{}, Revs: []c04Rev{}}
 		for _, n := range names {
@@ -151,6 +394,7 @@ func c04ConnGen(r *Rng) c04ConnScn {
 				op.Revs = append(op.Revs, rv)
 			}
 		}
+		cur = op.Revs
 		return op
 	}
 	s.Ops = append(s.Ops, set())
@@ -162,7 +406,14 @@ func c04ConnGen(r *Rng) c04ConnScn {
 		case 1:
 			s.Ops = append(s.Ops, c04ConnOp{Op: "gc", Fns: []string{}, Revs: []c04Rev{}})
 		default:
-			s.Ops = append(s.Ops, c04ConnOp{Op: "run", Name: Pick(r, append(names, "nope")), Fns: []string{}, Revs: []c04Rev{}})
+			op := c04ConnOp{Op: "run", Name: Pick(r, append(names, "nope")), Fns: []string{}, Revs: []c04Rev{}}
+			if callable(op.Name) && r.Chance(2, 3) {
+				op.Op = "call"
+			}
+			s.Ops = append(s.Ops, op)
+		}
+		if last := &s.Ops[len(s.Ops)-1]; last.Op != "set" && r.Chance(1, 8) {
+			last.ListFail = true
 		}
 	}
 	return s
